@@ -1,20 +1,7 @@
 """C01 — scalar expressions compute what the source says, for every input."""
 from gen import gen_scalar
-from sem import run_semantic
-from common import seed
+from props._semprop import simple
 
 
 def run(res, tier):
-    n = 96 if tier == "quick" else 1500
-    base = seed() * 100003
-    sources = [gen_scalar(base + i) for i in range(n)]
-    recs, infos, stats = run_semantic(res, sources, count=24 if tier == "quick" else 200)
-    distinct = len({i["source"] for i in infos if i["status"] in ("agree", "known") and i["verdict"].get("n_nodes", 0) >= 3})
-    res.coverage.update({
-        "programs": len(sources), "evaluations": sum((i["verdict"] or {}).get("valuations", 0) for i in infos),
-        "distinct_nontrivial": distinct,
-        "rule": "seeded typed generator of stateless scalar DAG programs (gen.ScalarGen); non-trivial = at least 3 Core nodes; distinct by source text",
-        "disagreements_checked": sum(1 for i in infos if i["status"] in ("known", "violation")),
-        "outcomes": dict(stats),
-        "samples": [i["source"] for i in infos[:3]],
-    })
+    simple(res, tier, gen_scalar, 96, 1500, "seeded typed generator of stateless scalar DAG programs (gen.ScalarGen: all 11 arithmetic, 6 comparison, 3 logical operators, unary, projection, output specifier; tree / deep / shared-DAG profiles)")
